@@ -225,6 +225,12 @@ func c13Corpus() ([]*corpusItem, error) {
    "x%.zip": {"xpath": "x", "type": "int"}, "zip.": {"xpath": "z2", "type": "int"}, "nested": {"object": {"q.zip": {"xpath": "q", "type": "int"}, "p.zip": {"xpath": "p", "type": "int"}}}}}}}`),
 		Input: []byte(`[{"ship": "1", "bill": "2", "ab": "3", "zip": "4", "x": "5", "z2": "6", "q": "7", "p": "8"}, {"ship": "s", "bill": "b", "ab": "ab", "zip": "z", "x": "x", "z2": "zz", "q": "q", "p": "p"},
  {"ship": "1", "bill": "b", "ab": "ab"}, {"ship": "s", "bill": "2", "ab": "ab"}, {"q": "q", "p": "p"}, {"ship": "1", "q": "7", "p": "p"}, {"x": "x", "z2": "zz", "zip": "z"}, {"bill": "b", "zip": "z", "ship": "s"}]`)})
+	extra = append(extra, &corpusItem{Name: "c13/union-xpaths", Format: "xml", Schema: []byte(`{"parser_settings": {"version": "omni.2.1", "file_format_type": "xml"},
+ "transform_declarations": {"FINAL_OUTPUT": {"xpath": "/root/rec", "object": {
+   "ab": {"array": [{"xpath": "a | b"}]}, "ba": {"array": [{"xpath": "b | a"}]}, "deep": {"array": [{"xpath": "g/b | a | g/a"}]},
+   "objs": {"array": [{"xpath": "g | a", "object": {"t": {"xpath": "."}}}]}, "one": {"xpath": "c | d"}}}}}`),
+		Input: []byte(`<root><rec><a>a1</a><b>b1</b><a>a2</a><g><a>ga1</a><b>gb1</b></g><b>b2</b><c>c1</c></rec><rec><b>b3</b><a>a3</a><g><b>gb2</b><a>ga2</a></g><a>a4</a><d>d1</d></rec>` +
+			`<rec><a>a5</a><b>b5</b><a>a6</a><g><a>ga3</a><b>gb3</b></g><b>b6</b><c>c2</c></rec><rec><a>a7</a><b>b7</b><a>a8</a><b>b8</b><a>a9</a><c>c3</c></rec><rec><g><a>x</a></g><b>y</b><a>z</a></rec></root>`)})
 	extra = append(extra, &corpusItem{Name: "c13/builtin-funcs", Format: "json", Schema: []byte(c13BuiltinFuncs), Input: []byte(c13ExtFuncsInput)})
 	for _, it := range extra {
 		if it.mk != nil {
